@@ -66,66 +66,102 @@ def _apply(patch: str, tmp: str) -> bool:
     return True
 
 
+def _job(args):
+    """Worker: build one scratch variant of `repo`, judge it with the rules of `prop`, remove it.
+    Returns (kind, name, status, {finding key: (rule, module, function, human)} | None, error)."""
+    kind, name, prop, repo = args
+    import importlib
+
+    mod = importlib.import_module(f"asv.rules.{prop.lower()}")
+    tmp = mutants.copy_pkg(repo)
+    try:
+        if kind == "twin":
+            try:
+                mutants.TWINS[name](tmp)
+            except SyntaxError:
+                return kind, name, "skipped", None, "tree does not compile"
+        else:
+            if not _apply(os.path.join(VARIANTS, name + ".diff"), tmp):
+                return kind, name, "skipped", None, "patch does not apply to the current tree"
+        got, err = _run_rules(mod, prop, tmp)
+        if got is None:
+            return kind, name, "error", None, err
+        return kind, name, "ok", {k: (f.rule, f.module, f.function, f.human()[:200]) for k, f in got.items()}, None
+    finally:
+        mutants.drop(tmp)
+
+
+def _run_jobs(jobs):
+    """Run the scratch-variant jobs on up to 8 worker processes (fork); falls back to in-process on any pool problem."""
+    if not jobs:
+        return []
+    try:
+        import multiprocessing as mp
+        from concurrent.futures import ProcessPoolExecutor
+
+        n = max(1, min(8, (os.cpu_count() or 2) - 1, len(jobs)))
+        if n == 1:
+            return [_job(j) for j in jobs]
+        with ProcessPoolExecutor(max_workers=n, mp_context=mp.get_context("fork")) as pool:
+            return list(pool.map(_job, jobs))
+    except Exception:  # noqa: BLE001 - a sandbox without working process pools still gets its answer
+        return [_job(j) for j in jobs]
+
+
 def run(ctx, mod, out=print) -> dict:
     prop = ctx.prop
     repo = ctx.p.repo
     base = {f.key() for f in ctx.findings}
     res = {"twins": [], "variants": [], "mypy": None, "ok": True}
 
+    idx_path = os.path.join(VARIANTS, "INDEX.json")
+    index = json.load(open(idx_path)) if os.path.exists(idx_path) else []
+    mine = [v for v in index if v.get("property") == prop]
+    jobs = [("twin", name, prop, repo) for name in mutants.TWINS] + [("variant", v["name"], prop, repo) for v in mine]
+    results = _run_jobs(jobs)
+    meta = {v["name"]: v for v in mine}
+
     # 1. neutral twins
-    for name, fn in mutants.TWINS.items():
-        tmp = mutants.copy_pkg(repo)
-        try:
-            try:
-                fn(tmp)
-            except SyntaxError:
-                res["twins"].append({"twin": name, "verdict": "skipped (tree does not compile)"})
-                continue
-            got, err = _run_rules(mod, prop, tmp)
-        finally:
-            mutants.drop(tmp)
-        if err:
+    for kind, name, status, got, err in results:
+        if kind != "twin":
+            continue
+        if status == "skipped":
+            res["twins"].append({"twin": name, "verdict": f"skipped ({err})"})
+        elif status == "error":
             res["twins"].append({"twin": name, "verdict": "ALARM", "detail": err})
             res["ok"] = False
             out(f"SELFTEST property={prop} twin={name} ALARM {err}")
-            continue
-        new = [k for k in got if k not in base]
-        if new:
-            res["ok"] = False
-            res["twins"].append({"twin": name, "verdict": "ALARM", "detail": [got[k].human()[:200] for k in new[:3]]})
-            out(f"SELFTEST property={prop} twin={name} ALARM {got[new[0]].human()[:160]}")
         else:
-            res["twins"].append({"twin": name, "verdict": "silent"})
+            new = [k for k in got if k not in base]
+            if new:
+                res["ok"] = False
+                res["twins"].append({"twin": name, "verdict": "ALARM", "detail": [got[k][3] for k in new[:3]]})
+                out(f"SELFTEST property={prop} twin={name} ALARM {got[new[0]][3][:160]}")
+            else:
+                res["twins"].append({"twin": name, "verdict": "silent"})
 
     # 2. breaking variants of this property
-    idx_path = os.path.join(VARIANTS, "INDEX.json")
-    index = json.load(open(idx_path)) if os.path.exists(idx_path) else []
     n_det = n_app = 0
-    for v in index:
-        if v.get("property") != prop:
+    for kind, name, status, got, err in results:
+        if kind != "variant":
             continue
-        patch = os.path.join(VARIANTS, v["name"] + ".diff")
-        tmp = mutants.copy_pkg(repo)
-        try:
-            if not _apply(patch, tmp):
-                res["variants"].append({"variant": v["name"], "verdict": "skipped (patch does not apply to the current tree)"})
-                continue
-            got, err = _run_rules(mod, prop, tmp)
-        finally:
-            mutants.drop(tmp)
+        v = meta[name]
+        if status == "skipped":
+            res["variants"].append({"variant": name, "verdict": f"skipped ({err})"})
+            continue
         n_app += 1
         new = [] if got is None else [k for k in got if k not in base]
-        if err or new:
+        if status == "error" or new:
             n_det += 1
-            what = err or f"{got[new[0]].rule} {got[new[0]].module}:{got[new[0]].function}"
-            res["variants"].append({"variant": v["name"], "kind": v.get("kind"), "verdict": "detected", "by": what[:160]})
+            what = err or f"{got[new[0]][0]} {got[new[0]][1]}:{got[new[0]][2]}"
+            res["variants"].append({"variant": name, "kind": v.get("kind"), "verdict": "detected", "by": what[:160]})
         elif v.get("neutralised"):
-            res["variants"].append({"variant": v["name"], "kind": v.get("kind"), "verdict": "silent (expected: the seed is neutralised on the repaired tree, see its meta.json)"})
+            res["variants"].append({"variant": name, "kind": v.get("kind"), "verdict": "silent (expected: the seed is neutralised on the repaired tree, see its meta.json)"})
             n_app -= 1
         else:
             res["ok"] = False
-            res["variants"].append({"variant": v["name"], "kind": v.get("kind"), "verdict": "MISSED", "what": v.get("what", "")[:160]})
-            out(f"SELFTEST property={prop} variant={v['name']} MISSED")
+            res["variants"].append({"variant": name, "kind": v.get("kind"), "verdict": "MISSED", "what": v.get("what", "")[:160]})
+            out(f"SELFTEST property={prop} variant={name} MISSED")
     res["variants_applicable"] = n_app
     res["variants_detected"] = n_det
 
